@@ -97,7 +97,7 @@ def run_shards(prop, tier, seed, nshards, budget, max_cases, only=None, hashseed
             out = os.path.join(tmp, f"shard{i}.json")
             hs = hashseeds[i] if hashseeds else (0 if tier == "quick" else i)
             procs.append((i, out, spawn(prop, tier, seed, i, nshards, budget, max_cases, out, hs, only)))
-        deadline = time.time() + 3 * budget + (900 if piggyback else 120)
+        deadline = time.time() + 7 * budget + (900 if piggyback else 120)
         for i, out, p in procs:
             try:
                 stdout, _ = p.communicate(timeout=max(5, deadline - time.time()))
